@@ -45,7 +45,7 @@ func main() {
 	initBlocks()
 
 	nHist := run.N(360, 5000)
-	nScen := run.N(180, 1500)
+	nScen := run.N(196, 1540)
 	nMgr := run.N(90, 600)
 	total := nHist + nScen + nMgr
 	run.Parallel(total, 10, func(c *h.Case) {
@@ -105,8 +105,8 @@ func historyCase(c *h.Case) {
 	}
 	shared := []string{w.pfx + "x0", w.pfx + "x1"}
 	opsPer := 3 + rng.Intn(5)
-	if nSess*opsPer > 36 {
-		opsPer = 36 / nSess
+	if nSess*opsPer > 30 {
+		opsPer = 30 / nSess
 	}
 	plan := make([][]planOp, nSess+1)
 	for s := 1; s <= nSess; s++ {
@@ -120,6 +120,16 @@ func historyCase(c *h.Case) {
 		endAt := -1
 		if rng.Intn(3) == 0 {
 			endAt = 1 + rng.Intn(opsPer)
+		}
+		if rng.Intn(3) == 0 {
+			// remembered-port episode: server-chosen port, close, a request the port manager refuses, server-chosen port again
+			n, pr := pick(rng, own), []string{"tcp", "udp"}[rng.Intn(2)]
+			bad := pick(rng, w.outside)
+			if rng.Intn(2) == 0 {
+				bad = pick(rng, allowed) // refused when owned or squatted at that moment, otherwise granted: the model decides
+			}
+			plan[s] = append(plan[s], planOp{Kind: "reg", Name: n, Proto: pr}, planOp{Kind: "close", Name: n},
+				planOp{Kind: "reg", Name: n, Proto: pr, Port: bad}, planOp{Kind: "close", Name: n}, planOp{Kind: "reg", Name: n, Proto: pr})
 		}
 		for i := 0; i < opsPer; i++ {
 			if i == endAt {
